@@ -85,6 +85,16 @@ class AbstractSimplePayloadDecoder(AbstractPayloadDecoder):
         if options.get('native'):
             return value
         elif asn1Spec is None:
+            protoTagSet = self.protoComponent.tagSet
+
+            if protoTagSet and tagSet and tagSet[0] == protoTagSet[0]:
+                # the type's own tag the way the type declares it (the
+                # constructed encoding of a string flags it constructed),
+                # then the tags recovered from the substrate
+                tagSet = tag.TagSet(
+                    protoTagSet.baseTag,
+                    *protoTagSet.superTags + tagSet.superTags[1:])
+
             return self.protoComponent.clone(value, tagSet=tagSet)
         elif value is noValue:
             return asn1Spec
